@@ -476,6 +476,12 @@ Next ==
 
 Spec == Init /\ [][Next]_S
 
+(* fairness: every task that is woken is eventually polled, the clock advances, a sink that is not ready   *)
+(* becomes ready again (it can be blocked only sinkLeft times)                                              *)
+Fair == /\ WF_S(StreamPoll) /\ WF_S(StreamStep) /\ WF_S(Tick) /\ WF_S(SinkOpen) /\ WF_S(SinkCredit)
+        /\ \A hh \in 1..MaxInc : WF_S(HandlerPoll(hh))
+FairSpec == Spec /\ Fair
+
 (* ------------------------------------------------------------------ observer at settle / quiescent points *)
 Writable == ReadyNow(S) \/ (SinkMode = "coupled" /\ S.open)
 Settled == /\ Idle /\ (S.sstate = "live" => T \notin S.woken)
@@ -509,4 +515,11 @@ TrackAgree == (Settled /\ S.sstate = "live" /\ ~S.o.f6 /\ S.o.faults = <<>>) =>
 TypeOK == /\ Cardinality(S.sdq) = Cardinality(S.sinfl)
           /\ Len(S.resp) + Cardinality(S.rgrant) <= RespBuf
 NoSpin == ~S.o.spin
+
+(* liveness (checked under FairSpec on small configurations, thorough tier):                              *)
+(* every handler task that exists ends - by completing, by cancellation, by its deadline (all deadlines     *)
+(* are <= MaxTime) or with the channel - and a peer that closed is eventually noticed: the stream ends.    *)
+HEnded(hh) == S.h[hh].st \in {"exited", "gone"}
+Live_Handlers == \A hh \in 1..MaxInc : (S.h[hh].st \in {"offered", "running", "sending"}) ~> HEnded(hh)
+Live_Eof == (S.eof /\ S.now = MaxTime) ~> (S.sstate = "gone")
 =============================================================================
